@@ -120,8 +120,8 @@ PROBE = [
     shape("post", "/r/s", data=DATAS[3], raw=True),
     shape("post", "r/s", data=DATAS[5]),
 ]
-CALLER_PROBE = [PROBE[0], PROBE[4], PROBE[7]]
-PROBE_LIGHT = [PROBE[1], PROBE[2], PROBE[4], PROBE[7]]
+CALLER_PROBE = [PROBE[4], PROBE[7]]
+PROBE_LIGHT = [PROBE[1], PROBE[4], PROBE[7]]
 CALLER_PROBE_LIGHT = [PROBE[4]]
 SEQ_SHAPES = [PROBE[0], PROBE[4], shape("post", "r/s", data=DATAS[3], headers=HEADERS[1])]
 CALLER_SEQ = [PROBE[0], PROBE[4]]
@@ -134,11 +134,12 @@ def full_shapes():
 
 
 TIERS = {
-    # H1: (root, derivation depth, probe set)   H0: root -> family depth   H2: (root, derivations, requests)
+    # H1: (root, derivation depth, probing)   H0: root -> family depth   H2: (root, derivations, requests)
+    #     probing "full": full probe set after every derivation; "light-last": light set after the last one
     "quick": {"H1": [("str", 3, "full"), ("str-slash", 2, "full"), ("list", 2, "full"), ("dict-noids", 2, "full")],
-              "H0": {"str": 1, "str-slash": 1, "list": 1, "dict-noids": 1},
+              "H0": {"str": 1, "str-slash": 0, "list": 0, "dict-noids": 0},
               "H2": [("str", 2, 2)]},
-    "thorough": {"H1": [("str", 3, "full"), ("str", 4, "light"), ("str-slash", 3, "full"), ("list", 3, "full"),
+    "thorough": {"H1": [("str", 3, "full"), ("str", 4, "light-last"), ("str-slash", 3, "full"), ("list", 3, "full"),
                         ("dict-noids", 3, "full")],
                  "H0": {"str": 2, "str-slash": 1, "list": 1, "dict-noids": 1},
                  "H2": [("str", 2, 2), ("str", 2, 3), ("dict-noids", 2, 2), ("list", 2, 2)]},
@@ -642,13 +643,11 @@ def shards(tier):
         for i in range(n_first_choices(root, last=(depth == 1))):
             for r in range(m):
                 out.append(("H1", root, depth, i, (r, m), probe))
-    for root, depth in t["H0"].items():
-        if depth == 0:
-            out.append(("H0", root, 0, None))
-            continue
+    for root, dmax in t["H0"].items():
         out.append(("H0", root, 0, None))
-        for i in range(n_first_choices(root, last=(depth == 1))):
-            out.append(("H0", root, depth, i))
+        for depth in range(1, dmax + 1):
+            for i in range(n_first_choices(root, last=(depth == 1))):
+                out.append(("H0", root, depth, i))
     for root, nd, nr in t["H2"]:
         for pat in patterns(nd, nr):
             for i in range(n_first_choices(root, last=False) - 0):
@@ -675,12 +674,15 @@ def _signature(world, node, entry, cls, altered):
 
 def run_ops(rootname, ops, probes_after_derivation=None, seed=0):
     """Run one history on a fresh world.  ``ops`` mixes derivations and ["req", node, entry, shape].
-    probes_after_derivation: None, or a function(fam) -> request ops issued after every derivation.
+    probes_after_derivation: None, or a function(fam, k, n) -> request ops issued after the k-th of the
+    history's n derivations.
     -> (world, findings, executed)  findings = [(signature, text, observed, expected, explicit ops so far)]"""
     w = World(rootname)
     findings = []
     executed = []
     nreq = 0
+    nderiv = sum(1 for o in ops if o[0] != "req")
+    kderiv = 0
 
     def do_req(op, probing):
         nonlocal nreq
@@ -708,8 +710,9 @@ def run_ops(rootname, ops, probes_after_derivation=None, seed=0):
                 findings.append((f"C17:{r[1]}:{made_by(op)}", "derivation failed: " + r[2], r[2],
                                  "a new connection / caller", list(executed)))
             break
+        kderiv += 1
         if probes_after_derivation is not None:
-            for p in list(probes_after_derivation(w.fam)):
+            for p in list(probes_after_derivation(w.fam, kderiv, nderiv)):
                 do_req(p, True)
                 executed.append(p)
     w.nreq = nreq
@@ -822,7 +825,9 @@ def run_shard(shard, tier, seed, acc):
         if kind == "H1":
             _, _, depth, first, second, probe = shard
             for k, ops in enumerate(derivation_sequences(rootname, depth, first, second)):
-                w, findings, executed = run_ops(rootname, ops, lambda fam: probe_ops(fam, seed, probe), seed)
+                w, findings, executed = run_ops(
+                    rootname, ops, lambda fam, k, n: probe_ops(fam, seed, probe) if probe == "full" or k == n else (),
+                    seed)
                 _account(acc, w, findings, len(executed),
                          {"H1": rootname, "derivations": ops} if k % 97 == seed % 97 else None)
                 _report(acc, rootname, findings, shrunk)
